@@ -139,3 +139,99 @@ Example C10_nonvacuous :
   plain_tf (TArray (TSet (TLeaf (LEnum (s2p "Color") color false)))) = true /\
   create_serializer env_ok 3 (s2p "P") = Ok tt.
 Proof. repeat split; vm_compute; reflexivity. Qed.
+
+(* ---- the tie to the source of the classifier, re-checked by the kernel on every run --------------------
+   Gen/TrustedSrc.v is re-generated from typedpy/serialization/serialization.py (harness/genmods/py2v_trusted.py):
+   _is_mapper_simple, _is_optional_anyof, _extract_non_nonefield_from_optional, _structure_simplicity_level,
+   _get_enum_mapping, the tuple _valid_classes_for_trusted_deserialization and the subclass table of the field
+   classes (read from the class statements).  For EVERY class environment the classifier of the source NOW is
+   the hand-written classifier of Ser/Trusted.v on which the theorems above are proved. *)
+From TP Require Import Base.PyOps Base.PyOps2 Base.PyObj Base.PyOpsFields Gen.TrustedSrc Ser.TrustedSrcProofs.
+
+Theorem C10_src_mapper_simple :
+  forall (other_obj : N -> bool -> pyval) (chain : list pyval) (e : tenv) 
+           (cn : pystr) (c : tclass),
+         chain_ok chain = true ->
+         find_tclass e cn = Some c ->
+         src_is_mapper_simple (class_heap other_obj chain e) (ref cn) =
+         Ok (PBool (mapper_simple (t_mapper c))).
+Proof. exact src_mapper_simple_eq. Qed.
+
+Theorem C10_src_optional_anyof_opt :
+  forall (other_obj : N -> bool -> pyval) (h : heap) (nf : bool) (f : tfield),
+         tf_wf other_obj f = true ->
+         src_is_optional_anyof h (tf_py other_obj (TOpt nf f)) = Ok (PBool true).
+Proof. exact src_optional_anyof_opt. Qed.
+
+Theorem C10_src_optional_anyof_union :
+  forall (other_obj : N -> bool -> pyval) (h : heap) (ls : list leaf),
+         src_is_optional_anyof h (tf_py other_obj (TUnion ls)) = Ok (PBool (union_optional ls)).
+Proof. exact src_optional_anyof_union. Qed.
+
+(* fields[0] in both branches: the source text itself *)
+Theorem C10_src_extract_opt :
+  forall (other_obj : N -> bool -> pyval) (h : heap) (nf : bool) (f : tfield),
+         tf_wf other_obj f = true ->
+         src_extract_non_nonefield_from_optional h (tf_py other_obj (TOpt nf f)) =
+         Ok (tf_py other_obj (if nf then none_leaf else f)).
+Proof. exact src_extract_opt. Qed.
+
+(* _structure_simplicity_level = level_of *)
+Theorem C10_src_level :
+  forall (other_obj : N -> bool -> pyval) (chain : list pyval) (e : tenv) 
+           (fuel : nat) (cn : pystr),
+         chain_ok chain = true ->
+         env_wf other_obj e = true ->
+         level_of e fuel cn <> Raise Unmodelled ->
+         src_structure_simplicity_level fuel (class_heap other_obj chain e) (ref cn) =
+         level_res (level_of e fuel cn).
+Proof. exact src_level_eq. Qed.
+
+(* the classifier's verdict = eligible *)
+Theorem C10_src_eligible :
+  forall (other_obj : N -> bool -> pyval) (chain : list pyval) (e : tenv) 
+           (fuel : nat) (cn : pystr),
+         chain_ok chain = true ->
+         env_wf other_obj e = true ->
+         level_of e fuel cn <> Raise Unmodelled ->
+         eligible e fuel cn =
+         match src_structure_simplicity_level fuel (class_heap other_obj chain e) (ref cn) with
+         | Ok v => py_truthy v
+         | Raise _ => false
+         end.
+Proof. exact src_eligible_eq. Qed.
+
+(* _get_enum_mapping (plain Enum fields first, then Optional[Enum]) *)
+Theorem C10_src_enum_mapping :
+  forall (other_obj : N -> bool -> pyval) (chain : list pyval) (e : tenv) 
+           (cn : pystr) (c : tclass),
+         find_tclass e cn = Some c ->
+         fields_wf other_obj (t_fields c) = true ->
+         nodupb (map f_name (t_fields c)) = true ->
+         src_get_enum_mapping (class_heap other_obj chain e) (ref cn) =
+         targets_res (enum_targets (enum_order (t_fields c))).
+Proof. exact src_enum_mapping_eq. Qed.
+
+Theorem C10_src_enum_order_same :
+  forall fs : list tfd,
+         match enum_targets fs with
+         | Ok a =>
+             match enum_targets (enum_order fs) with
+             | Ok b => Permutation.Permutation a b
+             | Raise _ => False
+             end
+         | Raise x => match enum_targets (enum_order fs) with
+                      | Ok _ => False
+                      | Raise y => x = y
+                      end
+         end.
+Proof. exact enum_order_same. Qed.
+
+Print Assumptions C10_src_mapper_simple.
+Print Assumptions C10_src_optional_anyof_opt.
+Print Assumptions C10_src_optional_anyof_union.
+Print Assumptions C10_src_extract_opt.
+Print Assumptions C10_src_level.
+Print Assumptions C10_src_eligible.
+Print Assumptions C10_src_enum_mapping.
+Print Assumptions C10_src_enum_order_same.
